@@ -5,6 +5,7 @@ from sa.core import (AnalysisError, FUNC, assignments, call_name, class_attr, co
                      enclosing_stmt, is_attr, is_name, is_self_attr, literal, norm, params, parent, walk_local, names_in, ancestors)
 from sa.guards import facts, split, enclosing_loops
 from sa.cfg import CFG
+from sa.objflow import ObjFlow
 
 PROP = "C01"
 REL = "ak/llparser.py"
@@ -17,6 +18,10 @@ EXPLANATION = (
     "merged; the set returned is the one stored in self._suffix_symbols and read by the splice. R01b (must-pass-through on the "
     "CFG of LLParser.parse): every path from 'production matched' to the hand-over next_matched(t_elem, ..) or to `return root` "
     "evaluates the suffix test, and its true branch pops the helper child and extends the parent with the helper's children. "
+    "When the splice is decided by a flag stored on the production object instead of a look-up in the suffix set, an "
+    "allocation-site flow analysis of ProdRule objects (sa/objflow.py) plus a fixpoint over construction sites decides that "
+    "the flag equals 'the production ends in a helper symbol' for every object that can be built (a site whose last symbol is "
+    "copied from a possibly helper-ending production while the flag is not is reported). "
     "R01c: fields written by next_matched are re-initialised by switch_to_next_prod, which alone advances the alternative; clone "
     "copies every constructor field; the roll-back `continue` is preceded by the stack cut and the switch. R01d: tokens are "
     "filtered only by the skip set and not reordered; a leaf is built from the token under the cursor only under the name test "
@@ -100,7 +105,10 @@ def run(cx):
         ok = norm(m.args[0]) == "last_symbol" and len(exp) == 1 and blk.index(exp[0]) < blk.index(enclosing_stmt(m)) and not any(isinstance(x, (ast.Break, ast.Continue)) for x in ast.walk(exp[0]))
         if ok:
             ap = [c for c in ast.walk(exp[0]) if isinstance(c, ast.Call) and call_name(c) == "append"]
-            ok = len(ap) == 1 and norm(ap[0].args[0]) == f"tuple([first_symbol] + list({norm(exp[0].target)}.production))"
+            merged = ap[0].args[0] if len(ap) == 1 else None
+            if isinstance(merged, ast.Call) and call_name(merged) == "ProdRule" and len(merged.args) >= 2:
+                merged = merged.args[1]     # the merged production may be wrapped into its ProdRule at once
+            ok = merged is not None and norm(merged) == f"tuple([first_symbol] + list({norm(exp[0].target)}.production))"
     cx.ob("R01a", marks[0] if marks else fp, ok, "a suffix is marked for removal only after all its productions were merged back behind the first symbol (helper of a nested suffix stays last)" if ok else
           "partial undo marks / merges suffix productions differently: a helper symbol may stay referenced or lose alternatives")
     gd = [e for e, pol in (facts(marks[0]) if marks else [])]
@@ -123,11 +131,20 @@ def run(cx):
     done_if = next((s for s in mw.body if isinstance(s, ast.If) and "len(top.values) == len(cur_prod.production)" in norm(s.test)), None)
     cx.need(done_if is not None, "R01b", parse, "'production matched' branch")
     suffix_ifs = [s for s in ast.walk(done_if) if isinstance(s, ast.If) and "self._suffix_symbols" in norm(s.test)]
+    if not suffix_ifs:
+        # the splice may be decided by something else than a look-up in the suffix set: locate it by its effect
+        suffix_ifs = [s for s in ast.walk(done_if) if isinstance(s, ast.If) and s is not done_if and any(norm(x).endswith("t_elem.value.pop()") for x in s.body)]
     cx.need(len(suffix_ifs) == 1, "R01b", parse, "suffix test in the completion branch")
     sif = suffix_ifs[0]
     fs = [norm(e) for e, pol in split(sif.test, True) if pol]
     ok = "cur_prod.production[-1] in self._suffix_symbols" in fs
-    cx.ob("R01b", sif, ok, "the test looks at the last symbol of the completed production" if ok else "suffix test does not examine production[-1]")
+    flag = [e for e, pol in split(sif.test, True) if pol and isinstance(e, ast.Attribute) and is_name(e.value, "cur_prod")]
+    if not ok and flag:
+        # a flag carried by the production object decides the splice: it must agree with "last symbol is a helper"
+        # for every ProdRule that can ever be constructed
+        _flag_agreement(cx, repo, sif, flag[0].attr, fcp, hname)
+    else:
+        cx.ob("R01b", sif, ok, "the test looks at the last symbol of the completed production" if ok else "suffix test does not examine production[-1]")
     handovers = [s for s in ast.walk(done_if) if (isinstance(s, ast.Expr) and isinstance(s.value, ast.Call) and call_name(s.value) == "next_matched") or isinstance(s, ast.Return)]
     cx.at_least("R01b", "hand-over sites of a completed node", len(handovers), 2)
     entry = g.node_of(done_if)
@@ -260,3 +277,304 @@ def run(cx):
     ec = class_attr(cx.cls(REL, "LLParser", "R01e"), "_END_TOKEN_NAME")
     ok = len(endt) == 1 and "end_token_name" in dflt and const(dflt["end_token_name"], str) and const(ec, str) and dflt["end_token_name"].value == ec.value
     cx.ob("R01e", endt[0] if endt else tok, ok, "the tokenizer ends every input with the parser's end token" if ok else "end token of tokenizer and parser differ")
+
+
+# ---------------------------------------------------------------------- R01b, flag-carried splice decision
+class _Und(Exception):
+    pass
+
+
+def _flag_agreement(cx, repo, sif, attr, fcp, hname):
+    """The splice is decided by `cur_prod.<attr>`.  Decide  <attr> == (production ends in a live helper symbol)  for every
+    ProdRule object that can be constructed: allocation-site flow (sa.objflow) tells which construction sites an expression
+    `R` may denote; every construction site is classified by (what decides its last symbol, what decides its flag) where each
+    side is a constant or "the same as R's"; the possible (ends-in-helper, flag) pairs per site are the least fixpoint."""
+    m = repo.mod(REL)
+    pr = cx.cls(REL, "ProdRule", "R01b")
+    init = repo.method(pr, "__init__")
+    cx.need(init is not None, "R01b", pr, "ProdRule.__init__")
+    ps = params(init)
+    st = {t.attr: sst.value for sst in init.body if isinstance(sst, ast.Assign) for t in sst.targets if is_self_attr(t)}
+    cx.need(isinstance(st.get(attr), ast.Name) and st[attr].id in ps and isinstance(st.get("production"), ast.Name) and st["production"].id in ps,
+            "R01b", init, f"ProdRule stores its `production` and `{attr}` parameters unchanged")
+    fpar, ppar = st[attr].id, st["production"].id
+    fidx, pidx = ps.index(fpar) - 1, ps.index(ppar) - 1
+    ndef = len(init.args.defaults)
+    pos = init.args.args
+    dflt = None
+    k = ps.index(fpar) - (len(pos) - ndef)
+    if 0 <= k < ndef:
+        dflt = init.args.defaults[k]
+    for kw, d in zip(init.args.kwonlyargs, init.args.kw_defaults):
+        if kw.arg == fpar:
+            dflt = d
+    # the two attributes are fixed at construction
+    for mod in repo.modules.values():
+        for n in ast.walk(mod.tree):
+            if isinstance(n, ast.Attribute) and n.attr in (attr, "production") and isinstance(n.ctx, (ast.Store, ast.Del)) and enclosing_func(n) is not init \
+                    and (n.attr == attr or mod.rel == REL and not is_self_attr(n)):
+                raise AnalysisError("R01b", where_(n), f"`.{n.attr}` is re-assigned after construction: flag agreement not decided")
+    of = ObjFlow(m, "ProdRule")
+    cx.at_least("R01b", "ProdRule construction sites", len(of.sites), 5)
+
+    def argof(c, idx, name):
+        for kw in c.keywords:
+            if kw.arg == name:
+                return kw.value
+        return c.args[idx] if idx < len(c.args) else None
+
+    def is_kobj(func, name):
+        return any(isinstance(a, ast.Attribute) and a.attr in ("production", "sort_n", attr) and is_name(a.value, name) for a in walk_local(func))
+
+    def sources(func, name, seen):
+        """Expressions whose value may be bound to `name` (directly, or as an element of the container it iterates)."""
+        out = []
+        if name in params(func):
+            out.append(("param", name))
+        for stt, v in assignments(func, name):
+            if v is not None and not (isinstance(stt, (ast.For, ast.comprehension))):
+                out.append(("expr", v))
+        for n in walk_local(func):
+            if isinstance(n, (ast.For, ast.comprehension)):
+                tn = [x.id for x in ast.walk(n.target) if isinstance(x, ast.Name)]
+                if name not in tn:
+                    continue
+                it = n.iter
+                while isinstance(it, ast.Call) and call_name(it) in ("enumerate", "sorted", "list", "tuple", "reversed", "iter") and it.args:
+                    it = it.args[0]
+                if isinstance(it, ast.Name):
+                    out.extend(elements(func, it.id, seen))
+                else:
+                    out.append(("opaque", it))
+        return out
+
+    def elements(func, cname, seen):
+        if (id(func), cname) in seen:
+            return []
+        seen.add((id(func), cname))
+        out = []
+        if cname in params(func):
+            out.append(("param-elem", cname))
+        for stt, v in assignments(func, cname):
+            if v is None:
+                continue
+            if isinstance(v, (ast.List, ast.Tuple, ast.Set)):
+                out.extend(("expr", e) for e in v.elts)
+            elif isinstance(v, ast.ListComp):
+                out.append(("expr", v.elt))
+            else:
+                out.append(("opaque", v))
+        for c in walk_local(func):
+            if isinstance(c, ast.Call) and isinstance(c.func, ast.Attribute) and is_name(c.func.value, cname):
+                if c.func.attr in ("append", "add", "appendleft"):
+                    out.append(("expr", c.args[0]))
+                elif c.func.attr == "insert":
+                    out.append(("expr", c.args[1]))
+                elif c.func.attr in ("extend", "update"):
+                    out.append(("opaque", c.args[0]))
+        return out
+
+    def is_terminal(n):
+        """A must-fact at this use says the name is one of the terminals (which are asserted not to contain '__')."""
+        for t, pol in facts(n):
+            if isinstance(t, ast.Compare) and len(t.ops) == 1 and is_name(t.left, n.id) and norm(t.comparators[0]) in ("terminals", "self.terminals"):
+                if isinstance(t.ops[0], ast.In) and pol or isinstance(t.ops[0], ast.NotIn) and not pol:
+                    return True
+        return False
+
+    def helper_free(e, func, depth=0):
+        """True when no helper symbol can occur in the value of `e` (user supplied symbols; '__' is reserved, R01a)."""
+        for n in ast.walk(e):
+            if isinstance(n, ast.Attribute) and n.attr == "production":
+                return False
+            if isinstance(n, ast.Name) and isinstance(n.ctx, ast.Load):
+                if func is fcp and n.id == hname:
+                    return False
+                if n.id in ("self", "cls") or n.id[:1].isupper() or n.id in ("next", "len", "tuple", "list", "str", "sorted", "set"):
+                    continue
+                if is_terminal(n):
+                    continue
+                if depth > 3:
+                    return False
+                for kind, src in sources(func, n.id, set()):
+                    if kind in ("param", "param-elem"):
+                        if not user_param(func, src, depth + 1):
+                            return False
+                    elif kind == "expr":
+                        if src is e or any(x is e for x in ast.walk(src)):
+                            continue
+                        if not helper_free(src, func, depth + 1):
+                            return False
+                    else:
+                        if not helper_free(src, func, depth + 1):
+                            return False
+        return True
+
+    def user_param(func, pname, depth):
+        """Every caller inside the package passes helper-free data for this parameter (or it is public input)."""
+        if depth > 4:
+            return False
+        ix = params(func).index(pname)
+        callers = [(f, c) for fl in of.funcs.values() for f in fl for c in walk_local(f) if isinstance(c, ast.Call) and func in of.resolve(c)]
+        for f, c in callers:
+            off = 1 if params(func)[:1] in (["self"], ["cls"]) and isinstance(c.func, ast.Attribute) else 0
+            a = None
+            for kw in c.keywords:
+                if kw.arg == pname:
+                    a = kw.value
+            if a is None and ix - off < len(c.args):
+                a = c.args[ix - off]
+            if a is None:
+                continue
+            if not helper_free(a, f, depth):
+                return False
+        return True
+
+    def last_terms(e, func, seen):
+        """(terms deciding the last symbol, may be empty).  Terms: 'N' user symbol, 'A' helper, ('S', R) the last symbol of R's production."""
+        if isinstance(e, ast.Call) and call_name(e) in ("tuple", "list") and len(e.args) == 1 and isinstance(e.func, ast.Name):
+            return last_terms(e.args[0], func, seen)
+        if isinstance(e, (ast.Tuple, ast.List)):
+            if not e.elts:
+                return set(), True
+            le = e.elts[-1]
+            if isinstance(le, ast.Starred):
+                raise _Und(f"starred tail in {norm(e)}")
+            if func is fcp and is_name(le, hname):
+                return {"A"}, False
+            if helper_free(le, func):
+                return {"N"}, False
+            raise _Und(f"cannot classify the last element of {norm(e)}")
+        if isinstance(e, ast.BinOp) and isinstance(e.op, ast.Add):
+            rt, re_ = last_terms(e.right, func, seen)
+            if not re_:
+                return rt, False
+            lt, le_ = last_terms(e.left, func, seen)
+            only = [t for t in rt if isinstance(t, tuple) and t[0] == "S"]
+            if len(rt) == 1 and len(only) == 1:
+                # the left operand decides only when R's production is empty: keep that condition with the term
+                lt = {("C", t, only[0][1]) if not isinstance(t, tuple) else t for t in lt}
+            return rt | lt, le_
+        if isinstance(e, ast.Attribute) and e.attr == "production" and isinstance(e.value, ast.Name):
+            return {("S", e.value.id)}, True
+        if isinstance(e, ast.Subscript) and isinstance(e.slice, ast.Slice) and e.slice.upper is None and e.slice.step is None:
+            t, _ = last_terms(e.value, func, seen)
+            return t | {"E"}, True      # 'E': the slice may drop everything although the original is not empty
+        if isinstance(e, ast.Name):
+            if (id(func), e.id) in seen:
+                return set(), True
+            seen = seen | {(id(func), e.id)}
+            out, emp = set(), False
+            srcs = sources(func, e.id, set())
+            if not srcs:
+                raise _Und(f"no binding of `{e.id}` found")
+            for kind, src in srcs:
+                if kind == "expr":
+                    if isinstance(src, ast.Name) and is_kobj(func, src.id) or id(src) in of.site_ix:
+                        continue        # a ProdRule object, not a tuple of symbols (separated by the isinstance test of the consumer)
+                    t, em = last_terms(src, func, seen)
+                    out |= t
+                    emp = emp or em
+                elif kind in ("param", "param-elem"):
+                    if user_param(func, src, 0):
+                        out.add("N")
+                        emp = True
+                    else:
+                        raise _Und(f"parameter `{src}` may carry helper symbols")
+                else:
+                    if helper_free(src, func):
+                        out.add("N")
+                        emp = True
+                    else:
+                        raise _Und(f"cannot follow {norm(src)[:60]}")
+            return out, emp
+        if helper_free(e, func):
+            return {"N"}, True
+        raise _Und(f"cannot classify production expression {norm(e)[:70]}")
+
+    info = []
+    for i, c in enumerate(of.sites):
+        func = enclosing_func(c)
+        pe = argof(c, pidx, ppar)
+        fe = argof(c, fidx, fpar)
+        try:
+            if pe is None:
+                raise _Und("no production argument")
+            terms, emp = last_terms(pe, func, set())
+            if emp:
+                terms = terms | {"N"} if not any(isinstance(t, tuple) and t[0] == "S" for t in terms) else terms
+            if fe is None:
+                fe = dflt
+            if fe is None:
+                raise _Und("flag argument missing and no default")
+            if isinstance(fe, ast.Constant) and isinstance(fe.value, bool):
+                ft = "T" if fe.value else "F"
+            elif isinstance(fe, ast.Attribute) and fe.attr == attr and isinstance(fe.value, ast.Name):
+                ft = ("S", fe.value.id)
+            else:
+                raise _Und(f"flag expression {norm(fe)}")
+        except _Und as u:
+            raise AnalysisError("R01b", f"{REL}:{c.lineno}", f"flag agreement not decided for `{norm(c)[:70]}`: {u}")
+        info.append((c, func, terms, ft))
+    pairs = [set() for _ in info]
+    own = [set() for _ in info]      # pairs a site creates itself (not an unchanged copy of both sides from one source object)
+    via = [dict() for _ in info]
+    changed = True
+    while changed:
+        changed = False
+        for i, (c, func, terms, ft) in enumerate(info):
+            new, mine = set(), set()
+
+            def flags():
+                return [ft] if not isinstance(ft, tuple) else [q[1] for k2 in of.of_name(func, ft[1]) for q in pairs[k2]]
+            for t in terms:
+                if isinstance(t, tuple) and t[0] == "C":
+                    # value t[1] applies when the production of object t[2] is empty (then that object does not end in a helper)
+                    if isinstance(ft, tuple) and ft[1] == t[2]:
+                        fl = [q[1] for k2 in of.of_name(func, t[2]) for q in pairs[k2] if q[0] == "N"]
+                    else:
+                        fl = flags()
+                    for f in fl:
+                        mine.add((t[1], f))
+                        via[i].setdefault((t[1], f), None)
+                elif isinstance(t, tuple):
+                    src = of.of_name(func, t[1])
+                    if isinstance(ft, tuple) and ft[1] == t[1]:
+                        for j in src:
+                            new |= pairs[j]
+                    else:
+                        for j in src:
+                            for pp in pairs[j]:
+                                for f in flags():
+                                    mine.add((pp[0], f))
+                                    via[i].setdefault((pp[0], f), t[1])
+                else:
+                    e = "N" if t == "E" else t
+                    for f in flags():
+                        mine.add((e, f))
+                        via[i].setdefault((e, f), None)
+            if not (new | mine) <= pairs[i]:
+                pairs[i] |= new | mine
+                changed = True
+            own[i] |= mine
+    origins = [info[j][0].lineno for j in range(len(info)) if "A" in info[j][2]]
+    for i, (c, func, terms, ft) in enumerate(info):
+        bad = sorted(pp for pp in own[i] if pp in (("A", "F"), ("N", "T")))
+        if not bad:
+            inherited = sorted(pp for pp in pairs[i] - own[i])
+            cx.ob("R01b", c, True, f"`{attr}` agrees with 'the production ends in a helper symbol' for every object built here: possible (ends-in-helper, flag) pairs {sorted(own[i])}"
+                  + (f"; last symbol and flag are both copied unchanged from one source object ({inherited})" if inherited else ""))
+            continue
+        pp = bad[0]
+        r = via[i].get(pp)
+        if pp == ("A", "F"):
+            msg = (f"the production built here ends in the last symbol of `{r}`'s production, and `{r}` may be a group production ending in a helper symbol (built at line {origins}), "
+                   if r else "the production built here ends in a helper symbol, ") + f"but `{attr}` is {'not passed (default False)' if argof(c, fidx, fpar) is None else 'false'}: the splice is skipped and the helper node stays in the returned tree"
+        else:
+            msg = f"`{attr}` is true for a production that does not end in a helper symbol: the splice would drop a real child"
+        cx.ob("R01b", c, False, msg)
+
+
+def where_(n):
+    from sa.core import where
+    return where(n)
